@@ -32,6 +32,7 @@ type CEnv struct {
 	old   *State
 	pkg   *types.Package
 	frame *Frame          // for resolving Go locals in invariants
+	sel   *Frame          // frame whose last select statement selindex / selok / selrecv refer to (postconditions)
 	at    *ssa.BasicBlock // loop header the invariant belongs to
 	phis  map[string]CVal // loop-carried variables (override)
 	lets  []*LetDef
@@ -965,6 +966,32 @@ func (c *CEnv) call(x *ast.CallExpr) CVal {
 			v = c.lit(v, at.Elem())
 		}
 		return CVal{S: fmt.Sprintf("(store %s %s %s)", a.S, i.S, v.S), T: a.T}
+	case "selindex", "selok", "selrecv":
+		// results of the select statement executed last: index of the chosen case, whether a receive delivered a
+		// value (channel not closed), and the value received by the k-th receive case (k counts receive cases from 0)
+		sf := c.frame
+		if sf == nil {
+			sf = c.sel
+		}
+		if sf == nil || sf.lastSel == nil {
+			return c.fail("%s: no select statement in this function", name)
+		}
+		tup := sf.tuples[sf.lastSel]
+		tt := sf.lastSel.Type().(*types.Tuple)
+		switch name {
+		case "selindex":
+			return CVal{S: tup[0], T: intT}
+		case "selok":
+			return CVal{S: tup[1], T: boolT}
+		}
+		k := 0
+		if lit, ok := arg(0).(*ast.BasicLit); ok {
+			k, _ = strconv.Atoi(lit.Value)
+		}
+		if 2+k >= len(tup) {
+			return c.fail("selrecv(%d): the select has no such receive case", k)
+		}
+		return CVal{S: tup[2+k], T: tt.At(2 + k).Type()}
 	case "inre":
 		// inre(s, "go regular expression"): MatchString semantics
 		lit, ok := arg(1).(*ast.BasicLit)
